@@ -60,6 +60,7 @@ func cmdRun(args []string) {
 	solver := fs.String("solver", "z3", "z3|z3-new|cvc5")
 	countFiles := fs.Bool("count-files", false, "attribute steps to files")
 	cpuprof := fs.String("cpuprofile", "", "write cpu profile")
+	forkSites := fs.Bool("fork-sites", false, "histogram of source lines where paths fork")
 	params := fs.String("params", "", "k=v,k=v harness parameters")
 	fs.Parse(args)
 	ov, err := load.Overlay(*repo, *harness)
@@ -92,7 +93,7 @@ func cmdRun(args []string) {
 			pm[kv[:i]] = n
 		}
 	}
-	sum := interp.Explore(P, fn, interp.Options{Workers: *workers, MaxPaths: *maxPaths, MaxSteps: *maxSteps, Trace: *trace, SolverKind: *solver, CountFiles: *countFiles, Params: pm})
+	sum := interp.Explore(P, fn, interp.Options{Workers: *workers, MaxPaths: *maxPaths, MaxSteps: *maxSteps, Trace: *trace, SolverKind: *solver, CountFiles: *countFiles, Params: pm, ForkSites: *forkSites})
 	sum.Funcs = nil
 	if len(sum.Samples) > 3 {
 		sum.Samples = sum.Samples[:3]
